@@ -27,12 +27,20 @@ fn plant_errors(b: &mut Built, ch: &mut Ch) -> usize {
                 // (the entry that cannot be evaluated stands in any column; the input columns left of it hold 1, those
                 // right of it 0: whatever has been evaluated when the row fails must not show up anywhere later)
                 let fc = ch.upto(cols.len().max(1));
+                // (one time in three it is a `bits(0, (7 / 0))` entry put in front of column fc: it fills no column, and
+                // its expression is evaluated - and fails - all the same)
+                let zero_width = ch.chance(1, 3);
                 let row = |id: usize| -> Vec<Entry> {
                     let _ = id;
-                    cols.iter()
+                    let mut es: Vec<Entry> = cols
+                        .iter()
                         .enumerate()
-                        .map(|(k, c)| if k == fc { Entry::Paren(bad()) } else if c.role == ColRole::ExpectedOnly { Entry::X(true) } else { Entry::Num((k < fc) as u64, Radix::Dec) })
-                        .collect()
+                        .map(|(k, c)| if k == fc && !zero_width { Entry::Paren(bad()) } else if c.role == ColRole::ExpectedOnly { Entry::X(true) } else { Entry::Num((k < fc) as u64, Radix::Dec) })
+                        .collect();
+                    if zero_width {
+                        es.insert(fc.min(es.len()), Entry::Bits(0, bad()));
+                    }
+                    es
                 };
                 let st = match ch.upto(5) {
                     0 => {
